@@ -474,7 +474,7 @@ pub fn run(ctx: &Ctx) -> i32 {
             Some(if i % 2 == 0 { Case16::Construct { dims: d, vals } } else { Case16::Equality { dims: d, vals } })
         }));
     }
-    let (max_size, total) = t.pick((7usize, 12000u64), (10, 200000));
+    let (max_size, total) = t.pick((7usize, 48000u64), (10, 300000));
     let strat = move || (prop::collection::vec(1..=max_size, 1..=4), any::<u64>(), any::<bool>()).prop_map(|(d, s, e)| (d, s, e)).boxed();
     st.merge(ctx.run_prop("random-shapes-and-values", total, strat, |(d, s, e)| {
         if numel(d) > 1500 {
